@@ -18,6 +18,8 @@ import (
 
 var scenarioCounter atomic.Uint32
 
+var pollerOnce sync.Once
+
 var targetBase = netip.MustParseAddr("127.0.12.2")
 
 const (
@@ -213,6 +215,14 @@ func runPlan(p *plan, workDir string) (out outcome) {
 	}
 	defer finish()
 
+	// The descriptor baseline below must include what the Go runtime itself keeps open once any socket has
+	// been used (epoll + eventfd). The driver's journal write used to initialise the poller by accident; a
+	// run without VERIF_WORK reported those two descriptors as "sockets-after-stop" in its first plan.
+	pollerOnce.Do(func() {
+		if c, err := net.ListenUDP("udp4", net.UDPAddrFromAddrPort(netip.MustParseAddrPort("127.0.0.1:0"))); err == nil {
+			c.Close()
+		}
+	})
 	if !udpsvc.WaitFor(5*time.Second, func() bool { return len(udpsvc.RepoGoroutines()) == 0 }) {
 		out.setupErr = fmt.Errorf("repo goroutines alive before the scenario:\n%s", udpsvc.Summaries(udpsvc.RepoGoroutines()))
 		out.fatal = true
@@ -648,6 +658,53 @@ func runPlan(p *plan, workDir string) (out outcome) {
 				x.label("refused-sends:via-upstream")
 			} else {
 				x.label("refused-sends:" + p.BatchMode)
+			}
+		case phIdleHalf:
+			// One datagram per session; the relay re-arms the session's idle deadline when it forwards it, i.e. not
+			// before the harness sent it (t0). Half a NAT timeout after t0 the destination sends one more reply:
+			// the session must still be there and relay it. Judged per session when the datagram was seen at the
+			// destination and the harness was not late (reply sent before t0 + 0.75 x natTimeout).
+			x.stopStreams()
+			x.stopFloods()
+			x.settled = false
+			held := make([]int, len(x.main)) // 0 unjudged, 1 held, 2 lost
+			var hwg sync.WaitGroup
+			for i, c := range x.main {
+				d := x.mainDest[i]
+				hwg.Go(func() {
+					seq := c.NextSeq()
+					t0 := time.Now()
+					c.Send(seq, d, 16)
+					if !udpsvc.WaitFor(T/4, func() bool { a, ok := x.w.Last(c.ID); return ok && a.Tag.Seq == seq }) {
+						return
+					}
+					time.Sleep(time.Until(t0.Add(T / 2)))
+					before := c.ReplyCount(seq)
+					if time.Since(t0) > T*3/4 || x.w.Flood(c.ID, 1, 0, nil) != 1 {
+						return
+					}
+					if udpsvc.WaitFor(2*time.Second, func() bool { return c.ReplyCount(seq) > before }) {
+						held[i] = 1
+					} else {
+						held[i] = 2
+					}
+				})
+			}
+			hwg.Wait()
+			x.established = true
+			nHeld := 0
+			for i, h := range held {
+				switch h {
+				case 1:
+					nHeld++
+				case 2:
+					x.miss("reply-within-timeout-not-relayed", fmt.Sprintf("session %d: a reply sent by the destination %v after the session's last datagram (configured natTimeout %v, %s form) did not reach the client within 2 s", i, T/2, T, formName(p.ConfigForm)))
+				}
+			}
+			if nHeld == len(x.main) {
+				x.label("idle-half-held")
+			} else {
+				x.label("idle-half-unjudged")
 			}
 		case phRefusedMix:
 			if tunnel {
@@ -1180,7 +1237,7 @@ func runPlan(p *plan, workDir string) (out outcome) {
 	}
 	if !udpsvc.WaitFor(5*time.Second, func() bool { n, _ := udpsvc.FDs(); return n <= fdBase }) {
 		n, s := udpsvc.FDs()
-		fail("sockets-after-stop", "descriptors remain after Manager.Run returned: %d (%d sockets), before the scenario %d", n, s, fdBase)
+		fail("sockets-after-stop", "descriptors remain after Manager.Run returned: %d (%d sockets), before the scenario %d: %v", n, s, fdBase, fdTargets())
 		out.fatal = true
 	}
 	if !svc.RunOK() {
@@ -1227,4 +1284,16 @@ func keysOf(m map[int]bool) []int {
 	}
 	sort.Ints(ks)
 	return ks
+}
+
+// fdTargets lists what the open descriptors point to (for failure messages).
+func fdTargets() []string {
+	ents, _ := os.ReadDir("/proc/self/fd")
+	var out []string
+	for _, e := range ents {
+		if l, err := os.Readlink("/proc/self/fd/" + e.Name()); err == nil {
+			out = append(out, e.Name()+"->"+l)
+		}
+	}
+	return out
 }
